@@ -61,16 +61,17 @@ CHECKS = {
         category="proof",
         text=("Representation invariant (injective virtual->physical map, in-use set == image) preserved by qalloc, qfree, keep-response delivery (success / deferral / fault), "
               "stop_application and re-registration from every state satisfying it; frame conditions between applications; fresh subroutine ids; stop_application interleaved with "
-              "another application's allocations at its yield points (exhaustive over small configurations). Bounded stand-in: every history of 4 (thorough: 5) qalloc / qfree / "
-              "keep-response operations on the real executor, natively."),
+              "another application's allocations at its yield points (exhaustive over small configurations). Bounded stand-in: every history of 4 (thorough: 5) operations out of 31 (qalloc, qfree, "
+              "keep delivery, recv request, response through the pending list, reservation of a physical qubit for a pair in flight and its delivery, stop + re-registration) "
+              "on the real executor, natively."),
         technique="contract-based deductive verification: inductive representation invariant per public operation on symbolic executor states, z3 (arrays, LIA, quantifiers)",
         design_ref="5.C13"),
     "C12": dict(
         category="proof",
         text=("Atomic-step contracts cover every interleaving of instruction steps and response deliveries (the executor is single threaded; other activity only at "
               "yield points): delivery of a response == spec function epr.deliver on the abstract view, proved symbolically for every request-queue shape with up to 3 "
-              "outstanding requests (create/receive roles and two sockets mixed, 1..3 pairs, symbolic progress) and up to 2 earlier pending responses, all identifiers "
-              "symbolic; request registration appends at the end of the right queue; wait_all/any/single resume only when the awaited entries are defined. Safety reading "
+              "outstanding requests (create/receive roles and two sockets mixed, 1..3 pairs, symbolic progress) and up to 2 earlier pending responses (at most 3 in total in the quick "
+              "tier, 4 in the thorough tier), all identifiers symbolic; request registration appends at the end of the right queue; wait_all/any/single resume only when the awaited entries are defined. Safety reading "
               "only (at most once, oldest first, slice k); the largest shapes (4-5 objects) run in the thorough tier."),
         technique="contract-based deductive verification: atomic-step contracts against a spec function (z3 arrays + LIA + quantified well-formedness), loop contracts for the wait instructions",
         design_ref="5.C12"),
